@@ -96,8 +96,8 @@ def parse_wrapper_cpp(g, ns='g', variant='plain', ctxkind=0):
                         '    ub.data[LEN] = (char)(opts >> 8); ub.data[LEN + 1] = (char)(opts >> 16);     // what happens to lie behind the caller\'s text: solver-chosen, not NUL\n'
                         '    auto r = %s::p.parse(o, ub, s);\n' % ns) + fin
     elif variant == 'hist':
-        body = setup + ('    {   // an earlier call on the same parser object with another input (reversed, low bit flipped): successful, failing and recovering priors all occur\n'
-                        '        char b2[LEN + 1]; for (int i = 0; i < LEN; i++) b2[i] = (char)(b[LEN - 1 - i] ^ 1); b2[LEN] = 0;\n'
+        body = setup + ('    {   // an earlier call on the same parser object with another, independently solver-chosen input (carried in the upper bits of opts; LEN <= 3)\n'
+                        '        char b2[LEN + 1]; for (int i = 0; i < LEN; i++) b2[i] = (char)(opts >> (8 * (i + 1))); b2[LEN] = 0;\n'
                         '        utils::no_stream ns0;\n'
                         '        auto r0 = %s::p.parse(o, cstring_buffer<LEN + 1>(b2), ns0);\n' % ns) + alt + '    }\n' + '    auto r = %s::p.parse(o, cstring_buffer<LEN + 1>(b), s);\n' % ns + fin
     elif variant == 'dual':
